@@ -185,6 +185,37 @@ def run_kani_group(prop, grp, tier, obligations, undecided, failures, checker_cm
         ws.cleanup()
 
 
+def run_native_group(prop, grp, tier, obligations, undecided, failures, checker_cmds, ev_extra, seed):
+    """BOUNDED stand-in: the real functions executed natively over a stated finite set of inputs
+    (woven under cfg(verif_search)).  Its obligations are never counted as proved."""
+    ws = Workspace(prop + "-native")
+    try:
+        weave_units(ws, grp["units"])
+        sr = vlib.native_search(ws, grp["crate"], grp["test"], features=grp.get("features"), targets=(), seed=seed)
+        checker_cmds.append(sr["cmd"])
+        comp = "bounded: " + grp["bound"]
+        if not sr["ran"]:
+            for n in grp["obligations"]:
+                obligations.append({"name": n, "engine": "native", "result": "undecided", "completeness": comp, "reason": "did not run"})
+            undecided.append({"obligation": grp["test"], "reason": "native bounded check did not run (compile error?)", "detail": sr["output"][-1500:]})
+            return
+        ev_extra.setdefault("native_bounded", []).append({"test": grp["test"], "evaluations": sr["evaluations"], "bound": grp["bound"]})
+        bad = [n for n in grp["obligations"] if n in sr["found"]]
+        for n in grp["obligations"]:
+            obligations.append({"name": n, "engine": "native execution of the real code", "result": "failed" if n in bad else "discharged",
+                                "completeness": comp, "solver_s": round(sr["wall_s"] / max(1, len(grp["obligations"])), 3)})
+        if bad:
+            pair = {"kind": "search", "crate": grp["crate"], "units": grp["units"], "features": grp.get("features"), "test": grp["test"]}
+            failures.append({"prop": prop, "group": dict(grp, kind="native", pair=pair), "harness": {"name": grp["test"], "replayable": True},
+                             "failed": bad, "obligations": bad, "native": {"found": sr["found"]}, "ws": "done",
+                             "search": {"pair": pair, "input": sr["found"][bad[0]], "found": sr["found"], "evaluations": sr["evaluations"]},
+                             "search_hit": bad[0], "found_input_native": True})
+    except Undecided as u:
+        undecided.append({"obligation": u.obligation, "reason": u.reason, "detail": u.detail[-800:]})
+    finally:
+        ws.cleanup()
+
+
 # --------------------------------------------------------------------------------------------
 def write_replay(prop, f):
     d = os.path.join(vlib.VERIF, "replays", prop)
@@ -204,7 +235,7 @@ def write_replay(prop, f):
                                                      if registry.UNITS[u].get("crate") == kgrp.get("crate")), None)) if kgrp else None,
         "harness": src["harness"]["name"], "harness_file": src["harness"].get("file"),
         "replayable_natively": bool(src["harness"].get("replayable", True)) and bool(kgrp),
-        "verifier_output": f.get("kani") or f.get("verus") or f.get("cbmc"),
+        "verifier_output": f.get("kani") or f.get("verus") or f.get("cbmc") or f.get("native"),
         "paired_kani_output": (f.get("pair") or {}).get("kani"),
         "concrete_playback_tests": pb.get("tests", []),
         "native_replay_failed": pb.get("native_failed"),
@@ -234,6 +265,8 @@ def decide(prop, tier, seed):
             elif grp["kind"] == "verus":
                 import verus_group
                 verus_group.run(prop, grp, tier, obligations, undecided, failures, checker_cmds, ev_extra)
+            elif grp["kind"] == "native":
+                run_native_group(prop, grp, tier, obligations, undecided, failures, checker_cmds, ev_extra, seed)
             elif grp["kind"] == "cbmc":
                 import cbmc_group
                 cbmc_group.run(prop, grp, tier, obligations, undecided, failures, checker_cmds, ev_extra)
@@ -309,7 +342,9 @@ def decide(prop, tier, seed):
             continue
         kind = f["group"]["kind"]
         pb = f.get("playback")
-        if kind == "kani":
+        if kind == "native":
+            found_input = True
+        elif kind == "kani":
             replayable = f["harness"].get("replayable", True)
             if replayable and pb and pb.get("native_failed") is False:
                 # verifier reports a failure that the native run of the same values does not reproduce
